@@ -86,6 +86,7 @@ W_STALE = [A, C, A, A, A, H(0), H(0), H(0), T(5), M(1), C, A, A, A, H(1), H(1), 
 ACCEPT_DIRECTED: list[tuple[str, int | None, int | None, list[tuple[Any, ...]]]] = [
     ("flag-not-cleared", 5, None, W_FLAG),
     ("flag-not-cleared-just-accepted", 5, None, W_FLAG_JUST),
+    ("flag-set-before-thread-starts", 5, None, [A, T(60), M(0), C, A, M(0), A, A, A, A, H(0), H(0), H(0)]),
     ("stale-timer", 5, None, W_STALE),
     ("stale-timer-sem", 5, 2, W_STALE),
     ("idle-break-grace", 5, None, [A, T(59), M(0), A, A, T(1), M(0), M(0), A, A, A, A]),
@@ -256,16 +257,15 @@ def run(ctx: Any) -> None:
     try:
         x = t_c33_accept.extract(ctx.repo)
         clear, guard, floor, sites = x["clear"], x["guard"], x["floor"], x["sites"]
+        frange = None
     except TranslationBroken as e:
-        clear, guard, floor = False, False, 60
+        # the loop is not the modelled one: no correspondence, but still search for a failing input with the oracle
+        clear, guard, floor, sites = False, False, 60, None
         try:
-            import ast
-
-            fn = t_c33_accept._find_fn(ast.parse((ctx.repo / "vgi_rpc" / "rpc" / "_transport.py").read_text()), "_serve_socket_threaded", "x")
-            sites = t_c33_accept.sites(fn)
+            frange = t_c33_accept.final_range(ctx.repo)
         except Exception:  # noqa: BLE001
-            sites = None
-        ctx.notes.append(f"accept-loop translation broken ({e}); model runs with c_clear = c_guard = false")
+            frange = None
+        ctx.notes.append(f"accept-loop translation broken ({e}); oracle-only runs of the real loop")
     ctx.rule = (
         "accept loop: (idle_timeout in {None,1,3,5,70}, max_connections in {None,1,2}) x schedule over {tick d, client, acc, accerr, hnd i, tmr k}: "
         "directed witnesses + seeded adaptive schedules of 20-70 actions; launcher: process kinds (launch/gc) x schedule over {proc i, worker w, stop w}; "
@@ -295,20 +295,20 @@ def run(ctx: Any) -> None:
             )
 
     def one_accept(name: str, idle: int | None, maxconn: int | None, sch: list[tuple[Any, ...]] | None, length: int = 0) -> None:
-        if sites is None:
+        if sites is None and frange is None:
             return
         try:
             if sch is not None:
-                tr, info = hs.run_accept(tm, sites, idle, maxconn, sch)
+                tr, info = hs.run_accept(tm, sites, idle, maxconn, sch, frange)
             else:
-                r = hs.AcceptRun(tm, sites, idle, maxconn)
+                r = hs.AcceptRun(tm, sites, idle, maxconn, frange)
                 try:
                     sch = _gen_accept_schedule(ctx.rng, r, idle, length)
                     info = r.break_info
                 finally:
                     r.close()
                 # replay the recorded schedule from scratch: the run must be reproducible step by step
-                tr, info2 = hs.run_accept(tm, sites, idle, maxconn, sch)
+                tr, info2 = hs.run_accept(tm, sites, idle, maxconn, sch, frange)
                 if info2 != info:
                     raise hs.HarnessError(f"non-deterministic replay: {info} vs {info2}")
         except hs.HarnessError as e:
@@ -316,12 +316,14 @@ def run(ctx: Any) -> None:
             return
         ctx.count("impl_runs")
         ctx.count("impl_steps", len(sch))
-        nontriv = any(o[1] > 0 or o[2] for o in tr)
+        nontriv = any(o[1] > 0 or o[2] for o in tr) or sites is None
         ctx.case(["accept", idle, maxconn, [list(a) for a in sch]], nontrivial=nontriv)
         ctx.tally("accept.idle_timeout", idle)
         ctx.tally("accept.max_connections", maxconn)
-        ctx.tally("accept.outcome", "idle-break" if info else ("oserror" if tr and tr[-1][7] else "running"))
+        ctx.tally("accept.outcome", "idle-break" if info else ("oserror" if tr and tr[-1][7] else "running-or-unobserved"))
         accept_oracle(name, idle, maxconn, sch, info)
+        if sites is None:
+            return
         inp = f"(({str(clear).lower()}, {str(guard).lower()}), ({_coq_opt(idle)}, {_coq_opt(maxconn)}), {floor}, {_coq_sched(sch, _ACODE)})"
         a_cases.append((inp, _coq_trace(tr)))
         a_meta.append({"scenario": name, "idle_timeout": idle, "max_connections": maxconn, "schedule": [list(a) for a in sch], "impl_trace": tr})
@@ -349,7 +351,7 @@ def run(ctx: Any) -> None:
             shown = ctx.coq_show(header, f"run_case {a_cases[i][0]}")
             ctx.violation("model-impl-disagree-accept-loop", "real accept loop and model differ on a schedule", {**a_meta[i], "model_trace": shown[-1500:]})
     else:
-        ctx.obligation("correspondence:M_Accept.run_case", "correspondence", False, "no accept-loop run could be driven: " + "; ".join(harness_errors[:3]))
+        ctx.obligation("correspondence:M_Accept.run_case", "correspondence", False, "accept loop is not the modelled one (oracle-only runs)" if sites is None else "no accept-loop run could be driven: " + "; ".join(harness_errors[:3]))
 
     ctx.log("accept loop: model evaluated")
     # ---------------------------------------------------------------- launcher
